@@ -45,7 +45,10 @@ class PolicyNameSubTLV(SubTLV):
         return f'"policy-name": {json.dumps(self.name)}'
 
     def __str__(self) -> str:
-        return f'policy-name "{self.name}"'
+        # the name is the peer's: a quote in it must not close the quoted value and let the
+        # rest of the name read as further sub-TLVs of the text event
+        name = self.name.replace('\\', '\\\\').replace('"', '\\"')
+        return f'policy-name "{name}"'
 
     @classmethod
     def unpack(cls, data: Buffer) -> PolicyNameSubTLV:
